@@ -168,3 +168,6 @@ package common
 //@ trusted func BytesToAddress(b []byte) (a Address)
 //@   ensures len(b) == 20 ==> content(a) == content(b)
 //@   ensures len(b) == 0 ==> a == Address{}
+
+// Fmt (a package-level function variable wrapping fmt.Sprintf) only reads its arguments.
+//@ trusted func Fmt(format string, a []interface{}) (r string)
